@@ -6,7 +6,8 @@
    Level B (drift): the encoder's verdict and bytes agree with module Metadata (MaxNameLen = 255).        *)
 EXTENDS TraceBase
 M == INSTANCE Metadata WITH MaxNameLen <- 255, Propagate <- TRUE, AcceptEmpty <- TRUE, MaxLevel <- 1000
-CheckA(r) == r.e = "Meta" => (r.eok => (r.dok /\ r.out = r.tree /\ r.outatts = r.atts))
+\* attribute metadata is keyed by attribute unique id: the decoded geometry must still have the attributes under those ids
+CheckA(r) == r.e = "Meta" => (r.eok => (r.dok /\ r.out = r.tree /\ r.outatts = r.atts /\ r.out_uids = r.in_uids))
 CheckB(r) == (r.e = "Meta" /\ r.via = "direct") =>
       /\ (r.hasmodel => Drift(r.eok = r.model_eok, "encoder verdict vs MC row"))
       /\ (r.hasbytes /\ r.eok) => Drift(r.bytes = r.model_bytes, "metadata bytes vs MC row")
